@@ -20,6 +20,10 @@ type recFormat struct {
 	sch    omniparser.Schema
 }
 
+// a script that reads a global it is not given (sees it only if an earlier call leaked it), and one that throws on demand
+const jsProbe = `{"custom_func": {"name": "javascript", "args": [{"const": "typeof code === 'undefined' ? 'clean:' + id : 'LEAK:' + code"}, {"const": "id"}, {"xpath": "id"}]}}`
+const jsThrow = `{"custom_func": {"name": "javascript", "args": [{"const": "if (code && code.indexOf('BAD') === 0) { throw 'bad code'; } code || ''"}, {"const": "code"}, {"xpath": "code"}]}}`
+
 const tsFunc = `{"custom_func": {"name": "dateTimeToRFC3339", "args": [{"xpath": "ts"}, {"const": ""}, {"const": ""}]}}`
 
 func c10Formats() []*recFormat {
@@ -67,15 +71,17 @@ func c10Formats() []*recFormat {
 			Wrap: join("")},
 		{Name: "json", Schema: `{"parser_settings": {"version": "omni.2.1", "file_format_type": "json"},
  "transform_declarations": {"FINAL_OUTPUT": {"xpath": "/*", "object": {"id": {"xpath": "id"}, "qty": {"xpath": "qty", "type": "int"},
-   "tags": {"array": [{"xpath": "tags/*"}]}, "ts": ` + tsFunc + `, "js": {"custom_func": {"name": "javascript_with_context", "args": [{"const": "JSON.parse(_node).id"}]}}}}}}`,
-			OK:   []string{`{"id": "a", "qty": 1, "tags": ["x", "y"]}`, `{"id": "b", "qty": 2, "tags": [], "ts": "2020-01-02"}`, `{"id": "c", "qty": 3}`, `{"id": "d", "qty": 4, "tags": ["é"]}`},
-			Fail: map[string][]string{"cast": {`{"id": "e", "qty": "bad"}`, `{"id": "e2", "qty": 1.5}`}, "func": {`{"id": "f", "qty": 6, "ts": "garbage"}`}},
+   "tags": {"array": [{"xpath": "tags/*"}]}, "ts": ` + tsFunc + `, "js": {"custom_func": {"name": "javascript_with_context", "args": [{"const": "JSON.parse(_node).id"}]}},
+   "a_probe": ` + jsProbe + `, "b_code": ` + jsThrow + `}}}}`,
+			OK:   []string{`{"id": "a", "qty": 1, "tags": ["x", "y"]}`, `{"id": "b", "qty": 2, "tags": [], "ts": "2020-01-02", "code": "k1"}`, `{"id": "c", "qty": 3}`, `{"id": "d", "qty": 4, "tags": ["é"], "code": "k2"}`},
+			Fail: map[string][]string{"cast": {`{"id": "e", "qty": "bad"}`, `{"id": "e2", "qty": 1.5}`}, "func": {`{"id": "f", "qty": 6, "ts": "garbage"}`}, "js": {`{"id": "g", "qty": 7, "code": "BAD-secret"}`}},
 			Wrap: func(r []string) string { return "[" + strings.Join(r, ",\n ") + "]" }},
 		{Name: "xml", Schema: `{"parser_settings": {"version": "omni.2.1", "file_format_type": "xml"},
  "transform_declarations": {"FINAL_OUTPUT": {"xpath": "/root/rec", "object": {"id": {"xpath": "@id"}, "qty": {"xpath": "qty", "type": "int"},
-   "one": {"xpath": "u"}, "tags": {"array": [{"xpath": "tag"}]}, "ts": ` + tsFunc + `, "js": {"custom_func": {"name": "javascript_with_context", "args": [{"const": "JSON.parse(_node).qty"}]}}}}}}`,
+   "one": {"xpath": "u"}, "tags": {"array": [{"xpath": "tag"}]}, "ts": ` + tsFunc + `, "js": {"custom_func": {"name": "javascript_with_context", "args": [{"const": "JSON.parse(_node).qty"}]}},
+   "a_probe": ` + jsProbe + `, "b_code": ` + jsThrow + `}}}}`,
 			OK:   []string{`<rec id="a"><qty>1</qty><tag>x</tag><tag>y</tag></rec>`, `<rec id="b"><qty>2</qty><u>only</u></rec>`, `<rec id="c"><qty>3</qty><ts>2020-01-02</ts></rec>`, `<rec id="d"><qty>4</qty><tag>&amp;é</tag></rec>`},
-			Fail: map[string][]string{"cast": {`<rec id="e"><qty>bad</qty></rec>`}, "multi": {`<rec id="f"><qty>6</qty><u>1</u><u>2</u></rec>`}, "func": {`<rec id="g"><qty>7</qty><ts>garbage</ts></rec>`}},
+			Fail: map[string][]string{"cast": {`<rec id="e"><qty>bad</qty></rec>`}, "multi": {`<rec id="f"><qty>6</qty><u>1</u><u>2</u></rec>`}, "func": {`<rec id="g"><qty>7</qty><ts>garbage</ts></rec>`}, "js": {`<rec id="h"><qty>8</qty><code>BAD-secret</code></rec>`}},
 			Wrap: func(r []string) string { return "<root>" + strings.Join(r, "\n") + "</root>" }},
 	}
 }
